@@ -782,6 +782,17 @@ func (e *Env) evalCall(n ECall) Val {
 			e.fail("inre needs a literal regex term")
 		}
 		return specVal("(str.in_re "+e.eval(n.Args[0]).T+" "+re.V+")", SBool)
+	case "iface":
+		// iface(x): the interface value holding x (pointer values only)
+		argn(1)
+		v := e.eval(n.Args[0])
+		if v.Sort == SIface {
+			return v
+		}
+		if v.Sort != SRef || v.Typ == nil {
+			e.fail("iface() of %s", v.Sort)
+		}
+		return specVal(fmt.Sprintf("(ite (= %s null) (mkIface %d null) (mkIface %d %s))", v.T, u.P.tagOf(v.Typ), u.P.tagOf(v.Typ), v.T), SIface)
 	case "toreal":
 		argn(1)
 		return specVal("(to_real "+e.eval(n.Args[0]).T+")", SReal)
@@ -878,6 +889,11 @@ func (e *Env) evalCall(n ECall) Val {
 		}
 		e2 := e.with(vars)
 		e2.depth = e.depth + 1
+		if p.Pkg != "" {
+			if tp, ok := u.P.TPkgs[p.Pkg]; ok {
+				e2.pkg = tp
+			}
+		}
 		return e2.eval(p.Body)
 	}
 	if s, ok := u.P.CS.Specs[n.Fun]; ok {
